@@ -91,9 +91,14 @@ let () =
        | ["op"; "req"; s] ->
          exec line (OReq (nat_of_int (int_of_string s), next_result here = "r ok"))
            (skip_or (fun z -> if string_of_z z = "1" then "r ok" else "r fail"))
-       | ["op"; ("hup" | "kill"); s] -> exec line (OHup (nat_of_int (int_of_string s))) (skip_or num)
+       | ["op"; ("hup" | "kill"); s] ->
+         let empty = (next_result here = "r 0 e") in
+         exec line (OHup (nat_of_int (int_of_string s), empty)) (skip_or (fun _ -> if empty then "r 0 e" else "r 0 q"))
        | ["op"; "t"; s] -> let i = int_of_string s in
-         if i < 0 then (pr line; if not !dead then (pr "r 0"; print_state !w)) else exec line (OTurn (nat_of_int i)) num
+         let empty = (here + 1 < Array.length arr && arr.(here + 1) = "kq e") in
+         let kq = if empty then "kq e" else "kq q" in
+         if i < 0 then (pr line; pr kq; if not !dead then (pr "r 0"; print_state !w))
+         else (pr line; exec kq (OTurn (nat_of_int i, empty)) num)
        | ["op"; "jobs"] -> exec line OJobs num
        | ["op"; "app"; a] -> exec line (OApp (action_of a)) (fun _ -> "r 0")
        | ["op"; "end"] -> pr line; dead := true
